@@ -83,6 +83,20 @@ def check(ctx):
     ex = ci.own_methods.get("__exit__")
     ok = en is not None and bool(find("self.lock.__enter__()", en)) and ex is not None and bool(find("self.lock.__exit__(*args)", ex))
     ctx.ob("DELEG.lock-api", ci.node, "__enter__/__exit__ delegate to the shared lock", ok)
+    # ---------------- who creates locks with an explicit token: nobody inside dask.  A token is an identity that
+    # callers may share on purpose; library code that derives one from a name (a scheduler name, an array name)
+    # makes separately created locks exclude each other.
+    n_ctor = 0
+    for rel in model.package_files("dask"):
+        if "SerializableLock(" not in model.read(rel):
+            continue
+        m_ = model.module(rel)
+        for c in calls(m_.tree, "SerializableLock"):
+            n_ctor += 1
+            ok = not c.args and not c.keywords
+            ctx.ob("EFFECT.fresh-token.callers", c, f"{rel}: SerializableLock() -- a fresh token per lock", ok, "" if ok else f"`{unparse(c)}` derives the token from a name: every lock created this way with the same name is one and the same mutex", nontrivial=not ok)
+    ctx.count("serializable_lock_constructions", n_ctor)
+    ctx.floor("serializable_lock_constructions", 3)
 
 
 VARIANTS = [
